@@ -236,3 +236,8 @@ pub extern "C" fn verif_slots_all_empty() -> bool {
         std::process::exit(5);
     }
 }
+
+#[no_mangle]
+pub extern "C" fn verif_try(f: extern "C-unwind" fn()) -> bool {
+    std::panic::catch_unwind(|| f()).is_err()
+}
